@@ -181,6 +181,8 @@ func (c *compiler) compileImport(i *Import) error {
 		if q, err = moduleLoader.LoadModule(path); err != nil {
 			return err
 		}
+	} else {
+		return fmt.Errorf("module not found: %q", path)
 	}
 	c.appendCodeInfo("module " + path)
 	if err = c.compileModule(q, alias); err != nil {
@@ -1297,6 +1299,8 @@ func (c *compiler) funcModulemeta(v any, _ []any) any {
 		if q, err = moduleLoader.LoadModule(s); err != nil {
 			return err
 		}
+	} else {
+		return fmt.Errorf("module not found: %q", s)
 	}
 	meta := q.Meta.ToValue()
 	if meta == nil {
